@@ -158,6 +158,18 @@ func (r *Roles) one(role string, fs []*Func) *Func {
 // interfaceKeys returns keys of interface methods (of library interfaces)
 // that f implements by name, plus f's own key.
 func (p *Prog) roleKeys(f *Func) map[string]bool {
+	if k, ok := p.roleKeysMemo[f]; ok {
+		return k
+	}
+	keys := p.roleKeysUncached(f)
+	if p.roleKeysMemo == nil {
+		p.roleKeysMemo = map[*Func]map[string]bool{}
+	}
+	p.roleKeysMemo[f] = keys
+	return keys
+}
+
+func (p *Prog) roleKeysUncached(f *Func) map[string]bool {
 	keys := map[string]bool{}
 	if f == nil || f.Obj == nil {
 		return keys
